@@ -111,7 +111,7 @@ join startswith endswith strip issubset issuperset count index item flatten mult
 evaluate resample integrate_box_1d random_sample normal uniform randint choice multivariate_normal exponential random
 to_dict to_list equals nlargest nsmallest idxmax idxmin abs prod median quantile describe value_counts groupby apply map
 isoformat encode decode replace title read readline readlines write close rsplit lstrip rstrip zfill find
-fillna drop rename reset_index sort_values sort_index set_index sample T_ sf logcdf isf stats entropy interval expect
+fillna drop rename reset_index sort_values sort_index set_index sample drop_duplicates duplicated T_ sf logcdf isf stats entropy interval expect
 catch_warnings simplefilter warn info debug warning error dump dumps load loads tobytes'''.split())
 M_MUTATOR = set('''append extend insert remove pop clear sort reverse update setdefault add discard fill put itemset resize
 setflags partition popitem update_layout update_traces add_trace update_xaxes update_yaxes set_state seed shuffle'''.split())
@@ -995,6 +995,12 @@ class FuncTr:
                         return Val([(v, 'may') for v in first.vars() if not v.immut])
                     vs = first.vars() if first is not None else []
                     return Val((), copy_of=vs[0] if len(vs) == 1 and not first.inner else None)
+                copy_false = isinstance(e, ast.Call) and any(
+                    k.arg == 'copy' and not (isinstance(k.value, ast.Constant) and k.value.value is True) for k in e.keywords)
+                if copy_false and first is not None:          # copy=False (or non-constant): in place / a view of the argument
+                    if fn == 'nan_to_num':
+                        self.write_to(first)
+                    return Val([(v, 'may') for v in first.vars() if not v.immut])
                 if fn in NP_FRESH:
                     return FRESH()
                 if fn in NP_MAYVIEW:
@@ -1175,8 +1181,12 @@ class FuncTr:
                     self.env['self.' + attr] = cur | self.bind_val(Val(rr), 'self.' + attr)
                     self.attr_out[attr] = self.attr_out.get(attr, frozenset()) | Val(rr).reach()
             elif recv_val is not None:
-                for a in allargs:
-                    self.absorb(recv_val, a)
+                kept = set()
+                for ks in getattr(res, 'attr_out', {}).values():
+                    kept |= set(ks)
+                for kx, s in zip(allkeys, S):          # the receiver keeps what the callee stores in its attributes
+                    if kx in kept:
+                        self.absorb(recv_val, Val([(v, 'view') for v in s if not v.immut]))
         r = join_vals(results) if results else FRESH()
         r.immut = False
         r.cls = self.hint_cls(e)
@@ -1213,7 +1223,8 @@ class FuncTr:
                                       f'but is not in TRACKED_ATTRS of {self.cls}')
                 self.env['self.' + t.attr] = self.bind_val(val, 'self.' + t.attr)
                 if tracked and t.attr in tracked:
-                    self.attr_out[t.attr] = self.attr_out.get(t.attr, frozenset()) | val.reach()
+                    al = frozenset().union(*[v.origins for v in val.vars() if not v.immut]) if val.vars() else frozenset()
+                    self.attr_out[t.attr] = self.attr_out.get(t.attr, frozenset()) | al
             elif base.sym is not None and base.sym[0] == 'class':
                 if val.reach():
                     raise Unsupported(f'{self.qual}: class attribute {sanitize(ast.unparse(t))} retains an alias of an input')
@@ -1286,7 +1297,17 @@ class FuncTr:
                         self.ret_hold |= m.reach()
             for m in v.inner:
                 self.ret_hold |= m.reach()
+        self.collect_attr_out()
         raise Terminated()
+
+    def collect_attr_out(self):
+        for a in (self.tracked_attrs() or []):
+            for v in self.env.get('self.' + a, ()):
+                if v.immut:
+                    continue
+                r = v.origins - {('a', a)}        # aliases only: objects held inside containers are not followed across attribute updates
+                if r:
+                    self.attr_out[a] = self.attr_out.get(a, frozenset()) | r
 
     def st_Raise(self, s):
         if s.exc is not None:
@@ -1476,7 +1497,9 @@ class FuncTr:
                 self.env = env0
                 self.lib_call([(m, None, f)], None, [self.val_of_vars([self.pvars[0]])], {}, self.node)
                 env0 = dict(self.env)
-        self.block(self.node.body, env0)
+        env_end, _ = self.block(self.node.body, env0)
+        self.env = env_end
+        self.collect_attr_out()
         self.res.implicit = [a for a, _ in self.implicit]
         self.res.ret = frozenset(self.ret)
         self.res.attr_out = dict(self.attr_out)
